@@ -157,7 +157,8 @@ func (s *Scanner) scanString() string {
 		ch := s.ch
 		if ch == '\n' || ch < 0 {
 			s.error(offs, "string literal not terminated")
-			break
+			// no closing quote to strip
+			return string(s.src[offs+1 : s.offset])
 		}
 		s.next()
 		if ch == '"' {
@@ -249,7 +250,8 @@ func (s *Scanner) scanRawString() string {
 		ch := s.ch
 		if ch < 0 {
 			s.error(offs, "raw string literal not terminated")
-			break
+			// no closing quote to strip
+			return string(s.src[offs+1 : s.offset])
 		}
 		s.next()
 		if ch == '`' {
